@@ -18,12 +18,12 @@ ID = "C04"
 LEVEL = "translation_validation"
 TECHNIQUE = "trajectory differential (reference Euler interpreter + SD-DSL twin) with a memo-key trace monitor on the generated model"
 RULE = ("generated XMILE structures: 1-3 stocks with 0-3 inflows and 0-3 outflows each, non-negative and bidirectional flows, auxiliaries, "
-        "graphical functions in <xscale> and <xpts> form; run specs dt in {1,.5,.25,.125,.1,.05,.2,.3,.01} and reciprocal dt in {3,4,7,10}, start in {0,1,5,0.5,0.25}, "
+        "graphical functions in <xscale> and <xpts> form, flow equations incl. unparenthesised chains (a - b + c, a / k * c); every fifth document carries the structure a second time as a named module with other constants and initial values; run specs dt in {1,.5,.25,.125,.1,.05,.2,.3,.01} and reciprocal dt in {3,4,7,10}, start in {0,1,5,0.5,0.25}, "
         "4-60 steps; read through equation(name,t) for every grid time and (every 4th case) through bptk.run_scenarios with a 'source' manager. "
         "programs = documents compiled; distinct_nontrivial = distinct (dt, start, #stocks, flow kinds, gf forms) combinations whose stocks "
         "actually move and where a non-negative flow clamps at least once or a stock has >=2 inflows/outflows.")
 ASSUMPTIONS = ["stocks are not declared non-negative (only flows are)", "values compared at 1e-9 relative; memo keys must lie within 1e-9 of a grid point"]
-REQUIRED = {"documents_compiled": 30, "trajectory_cells": 3000, "memo_keys_checked": 3000, "dsl_twin_cells": 1000}
+REQUIRED = {"documents_with_modules": 5, "documents_compiled": 30, "trajectory_cells": 3000, "memo_keys_checked": 3000, "dsl_twin_cells": 1000}
 BUDGET_S = {"quick": 110, "thorough": 1500}
 
 DTS = [("0.3", None), ("0.2", None), ("1", None), ("0.5", None), ("0.25", None), ("0.125", None), ("0.1", None), ("0.05", None), ("0.2", None), ("0.01", None),
@@ -98,8 +98,13 @@ def gen_structure(rng):
                 form = rng.random()
                 if form < 0.4:
                     ast = ["bin", "*", ["ref", rng.choice(consts)], ["ref", s if direction == "out" else rng.choice(stocks)]]
-                elif form < 0.7:
+                elif form < 0.6:
                     ast = ["bin", "-", a, ["bin", "*", ["ref", rng.choice(consts)], b]]
+                elif form < 0.7:
+                    # unparenthesised chains of operators of one precedence level (left to right)
+                    c = rng.choice(pool)
+                    ast = rng.choice([["bin", "+", ["bin", "-", a, b], c], ["bin", "-", ["bin", "-", a, b], c],
+                                      ["bin", "*", ["bin", "/", a, ["ref", rng.choice(consts)]], c], ["bin", "/", ["bin", "/", a, ["ref", rng.choice(consts)]], ["ref", rng.choice(consts)]]])
                 else:
                     ast = ["bin", "+", ["bin", "*", a, ["num", 0.1]], ["bin", "-", ["num", 1.0], ["bin", "*", ["time"], ["num", 0.05]]]]
                 spec_el.append(dict(name=nm, kind="flow" if nn else "biflow", eq=ast))
@@ -141,6 +146,28 @@ def run_case(case):
     except (X.IllConditioned, RecursionError):
         return dict(verdict="illcond", counters={"illcond": 1})
     names = [e["name"] for e in spec["elements"]]
+    # every fifth document carries the same structure a second time as a named module: same equation texts, other constants and
+    # initial values; every name resolves inside its own model
+    modules, modspec, modtable = None, None, None
+    if case["seed"] % 5 == 2:
+        import copy
+        modspec = copy.deepcopy(spec)
+        mxml = copy.deepcopy(xml_el)
+        for e, x in zip(modspec["elements"], mxml):
+            if e["kind"] == "constant":
+                e["value"] = e["value"] * 0.5 + 0.125
+                x["eqn"] = repr(e["value"])
+            elif e["kind"] == "stock":
+                e["init"] = float(e["init"]) + 1.5
+                x["eqn"] = repr(e["init"])
+        try:
+            mref = refsd.Ref(modspec)
+            modtable = mref.table()
+            if mref.min_dist < 1e-6:
+                raise X.IllConditioned("near discontinuity")
+            modules = {"Region B": mxml}
+        except (X.IllConditioned, RecursionError):
+            modspec = None
     clamps = any(e["kind"] == "flow" and min(table[e["name"]]) == 0.0 and max(table[e["name"]]) > 0 for e in spec["elements"])
     moves = any(max(table[s]) - min(table[s]) > 1e-9 for s in stocks)
     nt = sig if (moves and (clamps or multi)) else None
@@ -151,12 +178,14 @@ def run_case(case):
     w = None
     try:
         try:
-            cls, src, dest = XM.compile_and_load(XM.document(mod, run_xml, xml_el, reciprocal=recip), "models", mod)
+            cls, src, dest = XM.compile_and_load(XM.document(mod, run_xml, xml_el, reciprocal=recip, modules=modules), "models", mod)
             m = cls()
         except Exception as e:
             import traceback
             return dict(verdict="violated", counters=counters, mech="in-grammar-document-rejected", witness=dict(error=traceback.format_exc()[-600:], spec=spec))
         counters["documents_compiled"] = 1
+        if modspec is not None:
+            counters["documents_with_modules"] = 1
         if abs(m.dt - float(Fr(spec["run"]["dt"]))) > 1e-15 or abs(m.starttime - ref.times[0]) > 1e-12:
             return dict(verdict="violated", counters=counters, mech="runspec-parsed-wrong", witness=dict(dt=m.dt, expected_dt=float(Fr(spec["run"]["dt"])), start=m.starttime, run=spec["run"]))
         # ---- memo-key trace monitor on this instance ---------------------------
@@ -173,17 +202,19 @@ def run_case(case):
         grid = timerange(m.starttime, m.stoptime, m.dt, exclusive=False) if not recip else ref.times
         if len(grid) != len(ref.times) or any(abs(a - b) > 1e-9 for a, b in zip(grid, ref.times)):
             return dict(verdict="violated", counters=counters, mech="grid", witness=dict(grid=grid[:5] + grid[-3:], expected=ref.times[:5] + ref.times[-3:], run=spec["run"]))
-        for nme in names:
+        from BPTK_Py.sdcompiler.plugins.sanitizeNames import sanitizeName
+        scoped = [("", nme, table) for nme in names] + ([(sanitizeName("region b") + ".", nme, modtable) for nme in names] if modspec is not None else [])
+        for (scope, nme, tab_) in scoped:
             for k, t in enumerate(grid):
                 try:
-                    v = m.equation(nme, t)
+                    v = m.equation(scope + nme, t)
                 except Exception as e:
-                    w = dict(kind="equation-raises", element=nme, t=t, error="%s: %s" % (type(e).__name__, str(e)[:160]))
+                    w = dict(kind="equation-raises", element=scope + nme, t=t, error="%s: %s" % (type(e).__name__, str(e)[:160]))
                     break
                 counters["trajectory_cells"] = counters.get("trajectory_cells", 0) + 1
-                if not X.close(v, table[nme][k], rel=1e-9, ab=1e-9):
-                    w = dict(kind="value", element=nme, element_kind=[e["kind"] for e in spec["elements"] if e["name"] == nme][0], t=t, step=k, got=float(v), expected=table[nme][k],
-                             hint="value equals the reference at step %s" % next((j for j in range(len(grid)) if X.close(v, table[nme][j], rel=1e-9, ab=1e-9)), None))
+                if not X.close(v, tab_[nme][k], rel=1e-9, ab=1e-9):
+                    w = dict(kind="value", element=scope + nme, element_kind=[e["kind"] for e in spec["elements"] if e["name"] == nme][0], t=t, step=k, got=float(v), expected=tab_[nme][k],
+                             hint="value equals the reference at step %s" % next((j for j in range(len(grid)) if X.close(v, tab_[nme][j], rel=1e-9, ab=1e-9)), None))
                     break
             if w:
                 break
